@@ -36,8 +36,9 @@ RULE = (
     'Lorentzian / pseudo-Voigt peak of FWHM 0.5..40 grid steps or NO peak at all: content class '
     'all peaks / some estimates without a peak / no peak anywhere; flat, sloped, curved or '
     'strongly curved background, Gaussian noise with the true variances, 50..2000 points (..800 '
-    'for wide windows, ..1000 where estimates have no peak), uniform / geometric / quadratically '
-    'stretched grid, with or without units) or one remove_peaks call on its results; window class '
+    'for wide windows, ..1000 where estimates have no peak), uniform / geometric (spacing growing or '
+    'shrinking) / quadratically stretched / piecewise-constant-spacing grid, with or without units) or '
+    'one remove_peaks call on its results; window class '
     '(below the grid step, a few points, moderate, wide, full range, explicit sorted, explicit '
     'unsorted / overlapping / outside; scalar widths of float or integer dtype), estimate class '
     '(inside, on either edge, outside on either side, two outside), content class and the shape '
@@ -48,7 +49,16 @@ RULE = (
     'in every iterable form: list, tuple, dict, dict views, deque, an object with only __iter__ '
     '(re-iterable) and generator, iter(), filter, map, chain, reversed, a hand-written iterator '
     '(one-shot; the monitors take their elements from what the workload registered, never from '
-    'the argument); FitParameters / FitRequirements fields as float, int or numpy scalar; '
+    'the argument); explicit 2-d windows in every layout scipp allows for sizes {dim: m, range: 2} '
+    '((dim, range) and (range, dim), owning or transposed view, concat of the bounds, slice of a '
+    'larger array) x 1 / 2 / 3+ estimates, cycled; every single-peak re-run gets its window in '
+    'one of those layouts; estimates as a variable or a slice of a longer one; resolution cases: '
+    '1..3 under-resolved peaks (FWHM 0.45..2.2 x min_peak_width_factor x local spacing, factor 1 / '
+    '1.5 / 2) on a non-uniform grid, each in an explicit window across which the spacing changes '
+    'x2.5..x20 (geometric up / down, fine-coarse, coarse-fine, three-piece), the peak in the coarse '
+    'or the fine part, the true FWHM just below / above the local threshold and half-way to the '
+    'threshold every other spacing of the window (mean, min, max, median, first, last) would give; '
+    'FitParameters / FitRequirements fields as float, int or numpy scalar; '
     'distinct = distinct (call, window class, estimate class, spec shape, grid, #estimates, '
     'content, background class, iterable forms) signatures; no case is trivial'
 )
@@ -70,6 +80,10 @@ ASSUMPTIONS = [
     'the SAME polynomial degree as the successful result on the points of its window; for degree '
     '> 2 (instances only) the code\'s own background fit stops measurably above that minimum and '
     'the comparison is counted, not judged',
+    'a reported reason of failure is only contradicted where no reading of the requirement supports '
+    'it: too narrow against the LARGER adjacent spacing, too wide against the extent of the points '
+    'in the window (<= window width), near the edge against the outermost points, background is '
+    'better against the least-squares minimum of the same degree',
     'a one-shot iterator argument is never read by a monitor: its elements are those the '
     'workload registered for that object (unregistered one-shot iterators are counted, not judged)',
 ]
@@ -78,7 +92,9 @@ TECHNIQUE = ('runtime monitors (sys.monitoring) on fit_peaks / remove_peaks retu
              'independent model (own peak formulas, scipy chi2, weighted linear least squares)')
 LEVEL_TEXT = ('exploration: every observed fit_peaks / remove_peaks return in a generated workload that '
               'cycles all window, estimate and model-specification classes is compared with an '
-              'independent recomputation (1e-9 relative statistics, exact requirement predicates, '
+              'independent recomputation (1e-9 relative statistics, exact requirement predicates for '
+              'successes and for the reported reason of a failure, the local spacing taken from the '
+              'coordinate around the fitted centre, '
               'bitwise isolation and outside-window equality). Held on the decided executions reported, '
               'not a proof.')
 LEVEL_NOTE = ('trusted: numpy/scipy arithmetic and chi2 distribution, scipp containers and label-based '
@@ -223,6 +239,54 @@ def in_form(form, items, sources):
         return obj
 
     return build(), form
+
+
+# every way of laying out "a 2d array with sizes {dim: m, 'range': 2}": scipp addresses dimensions
+# by label, so the order of the dimensions, the memory order and whether the variable owns its
+# buffer or is a view into a larger one are all the same windows
+WINDOW_LAYOUTS = ['dim_range', 'range_dim', 'range_dim_view', 'concat_range', 'dim_range_view',
+                  'sliced_view']
+ISOLATION_LAYOUTS = ['dim_range', 'range_dim', 'concat_range', 'range_dim_view']
+
+
+def windows_in_layout(layout, w, dim, unit):
+    """The (m, 2) array of [lower, upper] bounds as a scipp variable in the given layout."""
+    w = np.ascontiguousarray(w, dtype=np.float64)
+    m = len(w)
+    if layout == 'dim_range':  # dims (dim, 'range'), row-major
+        v = sc.array(dims=[dim, 'range'], values=w, unit=unit)
+    elif layout == 'range_dim':  # dims ('range', dim), owns a row-major buffer
+        v = sc.array(dims=['range', dim], values=w.T.copy(), unit=unit)
+    elif layout == 'range_dim_view':  # .transpose() of the usual layout: dims ('range', dim), strided
+        v = sc.array(dims=[dim, 'range'], values=w, unit=unit).transpose(['range', dim])
+    elif layout == 'concat_range':  # lower and upper bounds stacked: dims ('range', dim)
+        v = sc.concat([sc.array(dims=[dim], values=w[:, 0].copy(), unit=unit),
+                       sc.array(dims=[dim], values=w[:, 1].copy(), unit=unit)], 'range')
+    elif layout == 'dim_range_view':  # dims (dim, 'range') on a 'range'-major buffer
+        v = sc.array(dims=['range', dim], values=w.T.copy(), unit=unit).transpose([dim, 'range'])
+    elif layout == 'sliced_view':  # dims (dim, 'range'): a slice out of a larger array
+        big = np.full((m + 3, 4), np.nan)
+        big[1:m + 1, 1:3] = w
+        v = sc.array(dims=[dim, 'range'], values=big, unit=unit)[dim, 1:m + 1]['range', 1:3]
+    else:
+        raise KeyError(layout)
+    if dict(v.sizes) != {dim: m, 'range': 2} or not np.array_equal(
+            np.stack([v['range', 0].values, v['range', 1].values], axis=1), w):
+        raise AssertionError(f'layout {layout} does not hold the windows')
+    return v
+
+
+def _count_class(m):
+    return '1 estimate' if m == 1 else ('2 estimates' if m == 2 else '3+ estimates')
+
+
+# (layout, number of estimates or None = as drawn) of the explicit-window cases, cycled
+EXPLICIT_COMBOS = ([(lay, t) for t in (3, 1, 2) for lay in ('range_dim', 'range_dim_view', 'concat_range')]
+                   + [('dim_range_view', 1), ('sliced_view', 3), ('dim_range', None),
+                      ('dim_range_view', 3), ('sliced_view', 1), ('dim_range', None),
+                      ('dim_range', 1), ('dim_range', 2)])
+FORCED_LAYOUT_CLASSES = sorted({f'explicit windows laid out {lay}, {_count_class(t)}'
+                                for lay, t in EXPLICIT_COMBOS if lay != 'dim_range'})
 
 
 def _is_single_model(spec):
@@ -565,10 +629,12 @@ class Monitors:
                    'aic': float(r.aic.value)}
             xw, yw, vw = x[mask], y[mask], var[mask]
             info = judge_stats(ctx, xw, yw, vw, coef, pk, pair[0], rep, 'result', case)
+            req = a.get('fit_requirements') or self.FP.FitRequirements()
             if name == 'success':
-                req = a.get('fit_requirements') or self.FP.FitRequirements()
                 judge_success(ctx, xw, yw, vw, float(lo_all[i]), float(hi_all[i]), coef, pk, pair,
                               rep, req, case, position=pairs.index(pair), peak_free=free)
+            elif name != 'failed' and info is not None:
+                judge_failure_reason(ctx, name, xw, yw, vw, coef, pk, pair, rep, req, case)
         self._judge_better_than(res, base)
         self._judge_isolation(a, res, used, base)
 
@@ -616,8 +682,12 @@ class Monitors:
         est = a['peak_estimates']
         edim = est.dim
         for i, r in enumerate(res):
-            w = sc.array(dims=[edim, 'range'], values=np.array([r.window.values]), unit=r.window.unit)
-            case = {**base, 'peak_index': i, 'window': r.window.values.tolist()}
+            # the one window in either layout scipp allows for sizes {dim: 1, 'range': 2}
+            layout = ISOLATION_LAYOUTS[i % len(ISOLATION_LAYOUTS)]
+            w = windows_in_layout(layout, np.array([r.window.values]), edim, r.window.unit)
+            ctx.event('isolation.windows_' + layout)
+            case = {**base, 'peak_index': i, 'window': r.window.values.tolist(),
+                    'layout_of_single_window': layout}
             try:
                 single = self.FP.fit_peaks(
                     a['data'], peak_estimates=est[edim, i:i + 1], windows=w,
@@ -713,14 +783,19 @@ def judge_success(ctx, xw, yw, vw, lo, hi, coef, pk, pair, rep, req, case, posit
     fw = pm.fwhm(kind, pk)
     if not fw <= req.max_peak_width_factor * (hi - lo) * (1 + 1e-12):
         bad('max_width', f'fwhm = {fw!r} > {req.max_peak_width_factor!r} x window width {hi - lo!r}')
-    c = int(np.argmin(np.abs(xw - loc)))
-    adj = [float(xw[j + 1] - xw[j]) for j in (c - 1, c) if 0 <= j < len(xw) - 1]
+    adj = local_spacings(xw, loc)
     if adj:
         small, large = min(adj), max(adj)
         if fw < req.min_peak_width_factor * small * (1 - 1e-9):
-            bad('min_width', f'fwhm = {fw!r} < {req.min_peak_width_factor!r} x local spacing {small!r}')
+            others = window_spacings(xw)
+            bad('min_width', f'fwhm = {fw!r} < {req.min_peak_width_factor!r} x local spacing {small!r} '
+                f'(spacings adjacent to the grid point nearest loc = {loc!r}: {adj}; of the whole '
+                f'window: {others})',
+                grid_in_window='uniform' if others['max'] <= others['min'] * (1 + 1e-9) else 'non_uniform')
         elif fw < req.min_peak_width_factor * large:
             ctx.count('undecided:min_width_between_adjacent_spacings')
+        else:
+            min_width_evidence(ctx, xw, fw, req.min_peak_width_factor, small, large, 'success')
     # better than the background alone, AIC of an independent linear least-squares fit
     n = len(xw)
     if deg > 2:
@@ -749,6 +824,107 @@ def judge_success(ctx, xw, yw, vw, lo, hi, coef, pk, pair, rep, req, case, posit
                     ctx.event('success_vs_background_aic.peak_free_window')
         else:
             ctx.count('aic_not_finite')
+
+
+def local_spacings(xw, loc):
+    """The spacings of the coordinate around ``loc``: those adjacent to the grid point nearest
+    to it (one at either end of the window)."""
+    if len(xw) < 2:
+        return []
+    c = int(np.argmin(np.abs(xw - loc)))
+    return [float(xw[j + 1] - xw[j]) for j in (c - 1, c) if 0 <= j < len(xw) - 1]
+
+
+def window_spacings(xw):
+    """Spacings of the window that are NOT 'around the peak centre' (what the local spacing is
+    told apart from)."""
+    st = np.diff(xw)
+    return {'mean': float((xw[-1] - xw[0]) / (len(xw) - 1)), 'min': float(st.min()),
+            'max': float(st.max()), 'median': float(np.median(st)), 'first': float(st[0]),
+            'last': float(st[-1])}
+
+
+def min_width_evidence(ctx, xw, fw, factor, small, large, verdict):
+    """Tallies for a result whose 'FWHM >= factor x local spacing' verdict was decided (FWHM
+    outside the band between the two adjacent spacings): how far the local spacing is from the
+    other spacings of the window, and whether the verdict would be the opposite one had any of
+    those been used in its place."""
+    ctx.event('min_width_rule')
+    ctx.event('min_width_rule.' + verdict)
+    if not factor > 0:
+        return
+    thr = fw / factor
+    others = window_spacings(xw)
+    local = 0.5 * (small + large)
+    ctx.dev('min_width.local_over_mean_spacing_of_window', local / others['mean'])
+    ctx.dev('min_width.mean_spacing_of_window_over_local', others['mean'] / local)
+    flipped = [k for k, v in others.items()
+               if (thr >= large and thr < v) or (thr < small and thr >= v)]
+    if flipped:
+        ctx.event('min_width.verdict_depends_on_local_spacing')
+        ctx.event('min_width.verdict_depends_on_local_spacing.' + verdict)
+        for k in flipped:
+            ctx.count('min_width.opposite_verdict_with_' + k + '_spacing_of_window')
+
+
+def judge_failure_reason(ctx, name, xw, yw, vw, coef, pk, pair, rep, req, case):
+    """The converse of (iii), as far as the documented meaning of an assessment goes (FitAssessment:
+    'the peak is too narrow given the resolution of the data', 'too wide given the size of the fit
+    window', 'too close to the edge of the window', 'the peak amplitude is negative', 'the p-value is
+    below threshold', 'the background fit yielded a better result'): the reported reason must be
+    true of the reported parameters.  Every comparison uses the reading most favourable to the
+    report (widest spacing / smallest window extent / distance to the outermost points), so a
+    report is only contradicted where no reading of the requirement supports it."""
+    kind, deg = pair
+    if len(xw) < 2:
+        return
+    ctx.event('failure_reason')
+    ctx.event('failure_reason.' + name)
+
+    def bad(what, **kw):
+        ctx.violation('failure_reason_not_true', f'reported {name!r} although {what}',
+                      {**case, 'popt_peak': pk, 'reported': rep}, reason=name, **kw)
+
+    fw = pm.fwhm(kind, pk)
+    loc = pk['loc']
+    if name == 'peak_too_narrow':
+        adj = local_spacings(xw, loc)
+        small, large = min(adj), max(adj)
+        f = req.min_peak_width_factor
+        if fw >= f * large * (1 + 1e-9):
+            others = window_spacings(xw)
+            bad(f'fwhm = {fw!r} >= {f!r} x local spacing {large!r} (spacings adjacent to the grid '
+                f'point nearest loc = {loc!r}: {adj}; of the whole window: {others})',
+                grid_in_window='uniform' if others['max'] <= others['min'] * (1 + 1e-9) else 'non_uniform')
+        elif fw >= f * small:
+            ctx.count('undecided:min_width_between_adjacent_spacings')
+        else:
+            min_width_evidence(ctx, xw, fw, f, small, large, 'peak_too_narrow')
+    elif name == 'peak_too_wide':
+        extent = float(xw[-1] - xw[0])
+        if fw <= req.max_peak_width_factor * extent * (1 - 1e-12):
+            bad(f'fwhm = {fw!r} <= {req.max_peak_width_factor!r} x extent of the points in the '
+                f'window {extent!r}')
+    elif name == 'peak_near_edge':
+        smin = float(np.min(np.diff(xw)))
+        if loc - xw[0] >= 2 * smin * (1 + 1e-12) and xw[-1] - loc >= 2 * smin * (1 + 1e-12):
+            bad(f'loc = {loc!r} is at least 2 steps ({smin!r}) from the outermost points '
+                f'[{float(xw[0])!r}, {float(xw[-1])!r}] of the window')
+    elif name == 'peak_points_down':
+        if pk['amplitude'] >= 0:
+            bad(f'amplitude = {pk["amplitude"]!r} >= 0')
+    elif name == 'p_too_small':
+        if rep['p_value'] >= req.min_p_value:
+            bad(f'p = {rep["p_value"]!r} >= min_p_value = {req.min_p_value!r}')
+    elif name == 'background_is_better' and deg <= 2 and len(xw) > deg + 1:
+        # the code's own background fit cannot lie below the least-squares minimum
+        aic_b = pm.background_only_aic(xw, yw, vw, deg)
+        aic = rep['aic']
+        if math.isfinite(aic_b) and math.isfinite(aic):
+            band = 1e-6 * len(xw) + REL * (abs(aic) + abs(aic_b))
+            if aic < aic_b - band:
+                bad(f'AIC = {aic!r} is below the smallest AIC any degree-{deg} background can '
+                    f'reach on these points, {aic_b!r}')
 
 
 def judge_auto_windows(ctx, data, center, width, fit_parameters, result, tag):
@@ -980,12 +1156,21 @@ def make_specs(cls, gi, rng, M, sources, max_pairs=6):
     return out[0], out[1], desc
 
 
-def gen_spectrum(rng, tier, content='peaks', bgc=None, n_max=2000):
+NON_UNIFORM_GRIDS = ['geometric', 'piecewise', 'quadratic', 'geometric_descending']
+GRID_KINDS = ['uniform', 'uniform', 'uniform', 'geometric', 'quadratic', 'geometric_descending',
+              'piecewise']
+
+
+def gen_spectrum(rng, tier, content='peaks', bgc=None, n_max=2000, n_estimates=None, grid=None):
     """A spectrum; ``peaks`` lists every place an estimate will point at.  Entries with
     ``present`` False are places WITHOUT a peak (nothing is added to the signal there):
     spurious estimates, as a peak finder produces them on noise or on a curved background."""
     n = int(round(10 ** rng.uniform(np.log10(50), np.log10(n_max))))
-    gk = ['uniform', 'uniform', 'uniform', 'geometric', 'quadratic'][rng.integers(0, 5)]
+    if n_estimates is not None:
+        n = max(n, 30 * n_estimates)
+    gk = GRID_KINDS[rng.integers(0, len(GRID_KINDS))]
+    if grid is not None:
+        gk = grid
     i = np.arange(n, dtype=np.float64)
     if gk == 'uniform':
         step = 10 ** rng.uniform(-3, 1)
@@ -995,11 +1180,26 @@ def gen_spectrum(rng, tier, content='peaks', bgc=None, n_max=2000):
     elif gk == 'geometric':
         ratio = rng.uniform(1.3, 6.0)
         x = 10 ** rng.uniform(-1, 3) * ratio ** (i / (n - 1))
+    elif gk == 'geometric_descending':
+        # logarithmic the other way round: the spacing shrinks along the axis
+        ratio = rng.uniform(1.3, 6.0)
+        g = 10 ** rng.uniform(-1, 3) * ratio ** (i / (n - 1))
+        x = (g[0] + g[-1]) - g[::-1]
+    elif gk == 'piecewise':
+        # 2..4 stretches of constant spacing, the spacing jumps by up to x5 at each knot
+        step = 10 ** rng.uniform(-3, 1)
+        knots = np.sort(rng.integers(n // 10, n - n // 10, int(rng.integers(1, 4))))
+        st = np.full(n - 1, step)
+        for kn in knots:
+            st[kn:] = step * 10 ** rng.uniform(-0.7, 0.7)
+        x = step * rng.uniform(-50, 300) + np.concatenate([[0.0], np.cumsum(st)])
     else:
         step = 10 ** rng.uniform(-3, 1)
         x = step * rng.uniform(-50, 300) + step * (i + rng.uniform(0.2, 2.0) * i * i / n)
     steps = np.diff(x)
     npk = int(rng.integers(1, 7))
+    if n_estimates is not None:
+        npk = n_estimates
     npk = max(1, min(npk, n // 25))
     seg = (0.9 * n) / npk
     peaks = []
@@ -1064,6 +1264,15 @@ def gen_spectrum(rng, tier, content='peaks', bgc=None, n_max=2000):
             'quadratic_bg': quad, 'background_class': bgc, 'content': content, 'n': n}
 
 
+def estimates_variable(est, dim, unit, as_view, tag):
+    """The 1d estimates: a variable of its own or (same sizes, same values) a slice of a longer one."""
+    if not as_view:
+        return sc.array(dims=[dim], values=est, unit=unit)
+    tag['estimates_given_as'] = 'slice of a longer variable'
+    big = np.concatenate([[np.nan, np.nan], est, [np.nan]])
+    return sc.array(dims=[dim], values=big, unit=unit)[dim, 2:2 + len(est)]
+
+
 def build_case(rng, gi, tier, M, P, sources):
     """One fit_peaks call: (data, kwargs, tag)."""
     wc = WINDOW_CLASSES[gi % len(WINDOW_CLASSES)]
@@ -1077,7 +1286,15 @@ def build_case(rng, gi, tier, M, P, sources):
     # by at most 3 model pairs for spectra with estimates that have no peak under them
     n_max = 800 if wc in ('wide', 'full_range') else (2000 if content == 'peaks' else 1000)
     max_pairs = 6 if (tier != 'quick' or content == 'peaks') else 3
-    s = gen_spectrum(rng, tier, content, bgc, n_max)
+    layout, n_forced = None, None
+    if wc in ('explicit', 'explicit_unsorted'):
+        # every layout of a 2d windows array x 1, 2, 3+ estimates, cycled
+        q = gi // len(WINDOW_CLASSES) + (0 if wc == 'explicit' else 5)
+        layout, n_forced = EXPLICIT_COMBOS[q % len(EXPLICIT_COMBOS)]
+    s = gen_spectrum(rng, tier, content, bgc, n_max,
+                     n_estimates=None if n_forced is None else (n_forced if n_forced < 3 else 3 + gi % 3),
+                     # every third spectrum on one of the non-uniform grids in turn (the others as drawn)
+                     grid=NON_UNIFORM_GRIDS[(gi // 3) % len(NON_UNIFORM_GRIDS)] if gi % 3 == 1 else None)
     x, n = s['x'], s['n']
     xu, yu = UNITS[rng.integers(0, len(UNITS))]
     dim = DIMS[rng.integers(0, len(DIMS))]
@@ -1115,6 +1332,10 @@ def build_case(rng, gi, tier, M, P, sources):
         fwhms = fwhms[:5] + [fwhms[-1]]
         free = free[:5] + [True]
     order = np.argsort(est, kind='stable')
+    if n_forced in (1, 2) and len(order) > n_forced:
+        # keep the estimate(s) that make the estimate class (the lowest or the highest ones)
+        order = order[-n_forced:] if ec in ('upper_edge', 'outside_above', 'two_outside_above',
+                                            'inside_then_far_outside') else order[:n_forced]
     est, fwhms, free = est[order], [fwhms[k] for k in order], [free[k] for k in order]
     m = len(est)
     tag = {'window_class': wc, 'estimate_class': ec, 'spec_class': sc_cls, 'grid': s['grid'],
@@ -1150,7 +1371,8 @@ def build_case(rng, gi, tier, M, P, sources):
                 w[k] = x[-1] + med, x[-1] + rng_x  # entirely outside
             elif r < 0.75:
                 w[k] = x[0] - rng_x, x[0] + med * rng.uniform(0.5, 30)  # sticks out below
-        windows = sc.array(dims=[dim, 'range'], values=w, unit=xu or 'one')
+        windows = windows_in_layout(layout, w, dim, xu or 'one')
+        tag['windows_layout'] = layout
     if windows.ndim == 0 and windows.value >= 4 and rng.random() < 0.25:
         # a width given as an integer number (a Variable of integer dtype)
         windows = sc.scalar(int(windows.value), unit=windows.unit)
@@ -1159,8 +1381,8 @@ def build_case(rng, gi, tier, M, P, sources):
     tag['peak_free'] = [bool(f) for f in free]
     peak_spec, bkg_spec, spec_desc = make_specs(sc_cls, gi, rng, M, sources, max_pairs)
     tag.update(spec_desc)
-    kw = {'peak_estimates': sc.array(dims=[dim], values=est, unit=xu or 'one'), 'windows': windows,
-          'background': bkg_spec, 'peak': peak_spec}
+    kw = {'peak_estimates': estimates_variable(est, dim, xu or 'one', gi % 4 == 3, tag),
+          'windows': windows, 'background': bkg_spec, 'peak': peak_spec}
     r = rng.random()
     if r < 0.5:
         f = float(rng.uniform(0.05, 0.9))
@@ -1179,10 +1401,126 @@ def build_case(rng, gi, tier, M, P, sources):
     return data, kw, tag, sig, s
 
 
+# ---- resolution cases: the local spacing against every other spacing of the window ----------
+# how the spacing changes across one fit window, and where in it the peak sits
+RES_BLOCKS = ['geometric_up', 'fine_then_coarse', 'geometric_down', 'coarse_then_fine',
+              'fine_coarse_fine', 'coarse_fine_coarse']
+PLACEMENTS = ['coarse', 'fine']
+WIDTH_FACTORS = [1.0, 2.0, 1.5]
+
+
+def _block_steps(kind, L, s0, rng):
+    """L - 1 spacings of one window region."""
+    j = np.arange(L - 1, dtype=np.float64)
+    if kind in ('geometric_up', 'geometric_down'):
+        st = s0 * rng.uniform(1.03, 1.09) ** j
+        return st if kind == 'geometric_up' else st[::-1].copy()
+    k = rng.uniform(2.5, 6.0)
+    if kind in ('fine_then_coarse', 'coarse_then_fine'):
+        cut = int(round((L - 1) * rng.uniform(0.4, 0.6)))
+        st = np.where(j < cut, s0, k * s0)
+        return st if kind == 'fine_then_coarse' else st[::-1].copy()
+    a, b = int(round((L - 1) * 0.36)), int(round((L - 1) * 0.64))
+    mid = (j >= a) & (j < b)
+    return np.where(mid, k * s0, s0) if kind == 'fine_coarse_fine' else np.where(mid, s0, k * s0)
+
+
+def build_resolution_case(rng, ri, tier, M, P, sources):
+    """One fit_peaks call on a NON-UNIFORM grid with 1..3 UNDER-RESOLVED peaks (FWHM of the order
+    of the local spacing), each in an explicit window across which the spacing changes by a
+    factor 2.5..20; the peak sits in the coarse or in the fine part of its window, so the spacing
+    around the peak centre differs clearly from the mean / smallest / largest / median spacing of
+    the window.  The true FWHM is placed on either side of ``min_peak_width_factor x local
+    spacing``: close to it, and half-way (geometrically) between it and the threshold any other
+    spacing of the window would give."""
+    nblocks = 1 + ri % 3
+    factor = WIDTH_FACTORS[(ri // 2) % len(WIDTH_FACTORS)]
+    s0 = 10 ** rng.uniform(-3, 1)
+    steps, blocks = [], []
+    for b in range(nblocks):
+        kind = RES_BLOCKS[(ri + b) % len(RES_BLOCKS)]
+        placement = PLACEMENTS[((ri + b) // len(RES_BLOCKS)) % 2]
+        L = int(rng.integers(34, 61))
+        st = _block_steps(kind, L, s0 * 10 ** rng.uniform(-0.3, 0.3), rng)
+        blocks.append({'kind': kind, 'placement': placement, 'L': L,
+                       'start': sum(bl['L'] for bl in blocks)})
+        steps.append(st)
+        if b + 1 < nblocks:
+            steps.append(np.array([st[-1]]))  # the step that leads to the next block
+    st_all = np.concatenate(steps)
+    x = s0 * rng.uniform(5, 200) + np.concatenate([[0.0], np.cumsum(st_all)])
+    n = len(x)
+    b0 = 10 ** rng.uniform(1.3, 3)
+    t = (x - 0.5 * (x[0] + x[-1])) / (0.5 * (x[-1] - x[0]))
+    bg = b0 * (1 + rng.uniform(-0.3, 0.3) * t)
+    sigma = np.full(n, b0 * 10 ** rng.uniform(-3, -1.5))
+    y = bg.copy()
+    w, est, placed = [], [], []
+    for b, bl in enumerate(blocks):
+        i0, i1 = bl['start'] + 2, bl['start'] + bl['L'] - 3  # first and last point of the window
+        nw = i1 - i0 + 1
+        # the peak goes into the central half of the window (the package takes its first guess of
+        # the background from the outer 15 % of the points on either side), two points or more
+        # from a jump of the spacing, where the spacing is largest ('coarse') or smallest ('fine')
+        cand = [c for c in range(i0 + int(math.ceil(0.25 * nw)), i0 + int(0.75 * nw) + 1)
+                if max(st_all[c - 2:c + 2]) <= 1.35 * min(st_all[c - 2:c + 2])]
+        loc_sp = np.array([0.5 * (st_all[c - 1] + st_all[c]) for c in cand])
+        best = loc_sp.max() if bl['placement'] == 'coarse' else loc_sp.min()
+        ties = [c for c, v in zip(cand, loc_sp, strict=True) if abs(v - best) <= 1e-9 * best]
+        c = ties[int(rng.integers(0, len(ties)))]
+        local = 0.5 * (st_all[c - 1] + st_all[c])
+        others = window_spacings(x[i0:i1 + 1])
+        # FWHM / (factor x local spacing): just below and above 1, and between 1 and what every
+        # other spacing of this window would put the threshold at
+        us = [0.88, 1.12] + [math.sqrt(v / local) for v in others.values()
+                             if not 1 / 1.2 < v / local < 1.2]
+        us = sorted({round(min(max(u, 0.45), 2.2), 6) for u in us})
+        u = us[(ri // 3 + b) % len(us)]
+        fw = factor * u * local
+        kind = PEAK_KINDS[(ri // 2 + b) % 3]
+        pp = {'loc': float(x[c] + rng.uniform(-0.45, 0.45) * min(st_all[c - 1], st_all[c])),
+              'scale': fw / (2 * math.sqrt(2 * math.log(2))) if kind == 'gaussian' else fw / 2,
+              'amplitude': 1.0}
+        if kind == 'pseudo_voigt':
+            pp['fraction'] = float(rng.uniform(0, 1))
+        pp['amplitude'] = float(sigma[c] * 10 ** rng.uniform(1.5, 2.7) / pm.peak_height(kind, pp))
+        y = y + pm.peak(kind, x, pp).astype(np.float64)
+        w.append([x[i0] - 0.3 * st_all[i0 - 1], x[i1] + 0.3 * st_all[i1]])
+        est.append(pp['loc'] + rng.uniform(-0.3, 0.3) * fw)
+        placed.append({'window_grid': bl['kind'], 'placement': bl['placement'], 'peak': kind,
+                       'fwhm_over_local_spacing': fw / local, 'fwhm_over_threshold': u,
+                       'local_spacing': float(local), 'window_spacings': others})
+    y = y + rng.normal(0.0, 1.0, n) * sigma
+    xu, yu = UNITS[rng.integers(0, len(UNITS))]
+    dim = DIMS[rng.integers(0, len(DIMS))]
+    data = sc.DataArray(
+        sc.array(dims=[dim], values=y, variances=sigma ** 2, unit=yu or 'one'),
+        coords={dim: sc.array(dims=[dim], values=x, unit=xu or 'one')})
+    layout = WINDOW_LAYOUTS[(ri // 3) % len(WINDOW_LAYOUTS)]
+    kinds = [pl['peak'] for pl in placed]
+    # one model where all peaks are of one kind, else the kinds present as a list
+    uniq = list(dict.fromkeys(kinds))
+    peak_spec = uniq[0] if len(uniq) == 1 else in_form('tuple', uniq, sources)[0]
+    tag = {'window_class': 'explicit_non_uniform', 'estimate_class': 'inside', 'spec_class': None,
+           'grid': 'blocks:' + '+'.join(bl['kind'] for bl in blocks), 'content': 'peaks',
+           'background_class': 'sloped', 'units': [xu, yu], 'dim': dim, 'dips': 0,
+           'windows_layout': layout, 'peak_free': [False] * nblocks, 'under_resolved': placed,
+           'peak_models': uniq, 'background_degrees': [1], 'peak_spec_form': 'bare' if len(uniq) == 1 else 'tuple',
+           'background_spec_form': 'bare', 'min_peak_width_factor': factor}
+    kw = {'peak_estimates': estimates_variable(np.array(est), dim, xu or 'one', ri % 4 == 1, tag),
+          'windows': windows_in_layout(layout, np.array(w), dim, xu or 'one'),
+          'background': 'linear', 'peak': peak_spec,
+          'fit_requirements': P.FitRequirements(min_peak_width_factor=factor)}
+    tag['requirements'] = repr(kw['fit_requirements'])
+    sig = ('fit_peaks', 'under_resolved', tuple((pl['window_grid'], pl['placement']) for pl in placed),
+           factor, layout, tuple(kinds))
+    return data, kw, tag, sig, {'n': n}
+
+
 def plan(tier, seed):
     if tier == 'quick':
-        return [{'spectra': 10} for _ in range(16)]
-    return [{'spectra': 313} for _ in range(16)]
+        return [{'spectra': 10, 'resolution': 3} for _ in range(16)]
+    return [{'spectra': 313, 'resolution': 48} for _ in range(16)]
 
 
 def requirements(tier):
@@ -1204,7 +1542,18 @@ def requirements(tier):
                    # removal with the results given in every iterable form
                    'remove_peaks.sequence': 10 * k, 'remove_peaks.re_iterable': 20 * k,
                    'remove_peaks.one_shot_iterator': 40 * k,
-                   'remove.inside.one_shot_iterator': 500 * k},
+                   'remove.inside.one_shot_iterator': 500 * k,
+                   # single-window re-runs with the window in every layout of a 2d variable
+                   **{'isolation.windows_' + lay: 20 * k for lay in ISOLATION_LAYOUTS},
+                   # 'FWHM >= factor x spacing around the peak centre' decided, both ways, and
+                   # decided on windows where any other spacing of the window (mean, smallest,
+                   # largest, median, first, last) gives the opposite verdict
+                   'min_width_rule': 60 * k, 'min_width_rule.success': 30 * k,
+                   'min_width_rule.peak_too_narrow': 10 * k,
+                   'min_width.verdict_depends_on_local_spacing': 20 * k,
+                   'min_width.verdict_depends_on_local_spacing.success': 8 * k,
+                   'min_width.verdict_depends_on_local_spacing.peak_too_narrow': 8 * k,
+                   'failure_reason': 30 * k},
         'forced': ['window with fewer points than parameters', 'estimate outside the data',
                    'estimate on the lower edge', 'estimate on the upper edge',
                    'window below the grid spacing', 'window spanning the full range',
@@ -1220,10 +1569,20 @@ def requirements(tier):
                    'model specification given as one_shot_iterator',
                    'fit results given as sequence', 'fit results given as re_iterable',
                    'fit results given as one_shot_iterator',
-                   'one-shot iterator of fit results with a successful fit'],
+                   'one-shot iterator of fit results with a successful fit',
+                   *FORCED_LAYOUT_CLASSES,
+                   *("explicit windows with 'range' as the outer dimension, " + c
+                     for c in ('1 estimate', '2 estimates', '3+ estimates')),
+                   'estimates given as a slice of a longer variable',
+                   *(f'under-resolved peak in the {pl} part of a {b} window'
+                     for b in RES_BLOCKS for pl in PLACEMENTS),
+                   *('spectrum on a ' + g + ' grid' for g in NON_UNIFORM_GRIDS)],
         'counters': {'success_after_failed_attempts': 1, 'all_pairs_failed': 1,
                      'assessment:success': 30 * k,
                      'peak_free_window:background_is_better': 5 * k,
+                     'min_width.opposite_verdict_with_mean_spacing_of_window': 10 * k,
+                     'min_width.opposite_verdict_with_min_spacing_of_window': 3 * k,
+                     'min_width.opposite_verdict_with_max_spacing_of_window': 3 * k,
                      **{f'success_vs_background_aic:{kd}+degree{d}': 1
                         for kd in PEAK_KINDS for d in (1, 2)}},
     }
@@ -1259,12 +1618,18 @@ def run(shard, ctx):
              on_return=mon.safe(rr, 'remove return'))
 
     per = shard['spectra']
+    nres = shard.get('resolution', 0)
     with tr:
-        for j in range(per):
+        for j in range(per + nres):
             gi = shard['index'] * per + j
             rng = np.random.Generator(np.random.PCG64([shard['seed'], shard['index'], j]))
             mon.sources.clear()
-            data, kw, tag, sig, s = build_case(rng, gi, shard['tier'], M, P, mon.sources)
+            if j < per:
+                data, kw, tag, sig, s = build_case(rng, gi, shard['tier'], M, P, mon.sources)
+            else:
+                ri = shard['index'] * nres + (j - per)
+                data, kw, tag, sig, s = build_resolution_case(rng, ri, shard['tier'], M, P,
+                                                              mon.sources)
             mon.tag.clear()
             mon.tag.update(tag)
             _forced(ctx, tag, kw, data, mon.sources)
@@ -1289,6 +1654,8 @@ def run(shard, ctx):
                 plain.coords['aux'] = sc.arange(data.dim, float(len(data)), unit='s')
                 plain.masks['m'] = plain.coords[data.dim] < plain.coords[data.dim][len(data) // 3]
             for vi, variant in enumerate(('as_fitted', 'overlapping')):
+                if j >= per and vi:
+                    break
                 fits = list(res)
                 if variant == 'overlapping':
                     ok = [r for r in res if r.assessment.name == 'success']
@@ -1343,6 +1710,15 @@ def _forced(ctx, tag, kw, data, sources):
         ctx.hit('explicit windows')
         if np.any(np.diff(est) < 0):
             ctx.hit('explicit windows, unsorted estimates')
+        ctx.hit(f'explicit windows laid out {tag["windows_layout"]}, {_count_class(len(est))}')
+        if w.dims[0] == 'range':
+            ctx.hit("explicit windows with 'range' as the outer dimension, " + _count_class(len(est)))
+    if tag.get('estimates_given_as'):
+        ctx.hit('estimates given as a slice of a longer variable')
+    for pl in tag.get('under_resolved', ()):
+        ctx.hit(f'under-resolved peak in the {pl["placement"]} part of a {pl["window_grid"]} window')
+    if tag['grid'] in NON_UNIFORM_GRIDS:
+        ctx.hit('spectrum on a ' + tag['grid'] + ' grid')
     if tag.get('dips'):
         ctx.hit('spectrum with a dip (negative peak)')
     if any(tag['peak_free']):
